@@ -24,9 +24,14 @@ def maybe_regenerate():
     if os.environ.get("VERIF_NO_REGEN") != "1":
         try:
             return regenerate()
-        except Exception as e:      # the check then fails on the stale / missing generated file, with this note
+        except Exception as e:      # recorded: run() of C19 / C20 reports it as a broken tie (never a silent pass on the stale file)
+            global REGEN_ERROR
+            REGEN_ERROR = repr(e)
             print("[inv] inventory regeneration failed: %r" % (e,), file=sys.stderr)
     return None
+
+
+REGEN_ERROR = None
 
 
 def current_inventory():
